@@ -133,8 +133,8 @@ def run(ctx):
         for cycle, cpl in (('V', 1), ('W', 1), ('F', 1), ('F', 2)):
             if nlev == 1 and cycle != 'V':
                 continue
-            for variant in ('plain', 'col', 'x0', 'alias', 'zero-rhs', 'zero-rhs-no-x0', 'prefill'):
-                if not ctx.thorough and not ctx.search and rng.random() < 0.45 and variant not in ('plain', 'zero-rhs', 'zero-rhs-no-x0'):
+            for variant in ('plain', 'col', 'x0', 'alias', 'zero-rhs', 'zero-rhs-no-x0', 'prefill', 'tiny-rhs', 'huge-rhs'):
+                if not ctx.thorough and not ctx.search and rng.random() < 0.45 and variant not in ('plain', 'zero-rhs', 'zero-rhs-no-x0', 'tiny-rhs'):
                     continue
                 b = np.array([rng.uniform(-1, 1) for _ in range(n)])
                 if cplx:
@@ -151,6 +151,10 @@ def run(ctx):
                     x0 = np.array([rng.uniform(-1, 1) for _ in range(n)])
                 elif variant == 'zero-rhs-no-x0':
                     b = np.zeros(n)          # x = 0 is the solution: history must start at 0, status 0 at once
+                elif variant == 'tiny-rhs':
+                    b = b * 2.0 ** -40       # ||b|| ~ 1e-12 is NOT zero: the tolerance stays relative to it
+                elif variant == 'huge-rhs':
+                    b = b * 2.0 ** 40
                 base = dict(builder=bname, matrix=mname, cycle=cycle, cpl=cpl, variant=variant,
                             b=b.tolist() if not cplx else [[v.real, v.imag] for v in np.ravel(b)],
                             x0=None if x0 is None else np.ravel(x0).real.tolist())
